@@ -111,7 +111,8 @@ def render_def(d: dict, deco: dict, idx: int) -> typing.Tuple[str, typing.List[d
 
 
 def def_relpath(d: dict) -> str:
-    return "ns/" + (d["dir"] + "/" if d.get("dir") else "") + d["name"] + ".1.0.dsdl"
+    port = "%d." % d["port"] if d.get("port") is not None else ""  # fixed port-ID: `<port>.<Name>.1.0.dsdl`
+    return "ns/" + (d["dir"] + "/" if d.get("dir") else "") + port + d["name"] + ".1.0.dsdl"
 
 
 def def_fullname(d: dict) -> str:
@@ -810,7 +811,23 @@ def gen_namespace(rng, max_defs: int = 4, prop: str = "C03") -> dict:
         defs[i]["lines"] = decorate(rng, stmts, density)
         defs[i]["kind"] = "service" if service[i] else "message"
         defs[i]["deprecated"] = deprecated[i]
-    return {"mode": rng.choice(["ns", "ns", "files"]), "defs": defs, "deco": gen_deco(rng, n), "alt": None}
+    case = {"mode": rng.choice(["ns", "ns", "files"]), "defs": defs, "deco": gen_deco(rng, n), "alt": None}
+    if prop == "C17":
+        # fixed port-IDs (file name prefix) inside the regulated range of the vendor root namespace `ns`, both range ends included
+        taken: set = set()
+        for d in defs:
+            if rng.random() < 0.3:
+                lo, hi = REGULATED[d["kind"]]
+                p = rng.choice([lo, hi, rng.randint(lo, hi)])
+                if (d["kind"], p) not in taken:
+                    taken.add((d["kind"], p))
+                    d["port"] = p
+    return case
+
+
+REGULATED = {"message": (6144, 7167), "service": (256, 383)}  # regulated fixed port-IDs of a non-standard root namespace
+PORT_MAX = {"message": 8191, "service": 511}
+MAX_NAME = 255  # longest full name (of a service: of its `.Request` / `.Response` parts)
 
 
 def gen_alt(rng, case: dict) -> dict:
@@ -929,6 +946,47 @@ def attr_positions(lines, lo, hi) -> typing.Tuple[int, int]:
     return first, max(first, last)
 
 
+def rename_def(case: dict, j: int, new_dir: str, new_name: str) -> None:
+    """Give definition j another directory / short name and rewrite every reference to it (always by its full name)."""
+    defs = case["defs"]
+    d = defs[j]
+    old_full, old_short = def_fullname(d), d["name"]
+    d["dir"], d["name"] = new_dir, new_name
+    new_full = def_fullname(d)
+    for l in d["lines"]:  # its own references by bare name were relative to the namespace it has just left
+        for k in l.get("deps") or []:
+            for t in l.get("toks") or []:
+                if k != j and k < len(defs) and t[0] == defs[k]["name"] + ".1.0":
+                    t[0] = def_fullname(defs[k]) + ".1.0"
+    for r in defs:
+        for l in r["lines"]:
+            if j not in (l.get("deps") or []):
+                continue
+            for t in l.get("toks") or []:
+                if t[0] in (old_full + ".1.0", old_short + ".1.0"):
+                    t[0] = new_full + ".1.0"
+            st = l.get("s")
+            if st and st[0] == "attr":
+                st[3] = st[3].replace(old_full + ".1.0", new_full + ".1.0")
+
+
+def reach_depth(case: dict, f: int) -> typing.Optional[int]:
+    """How deep below the target that is read first with it definition f is reached (0 = it is that target itself)."""
+    for t in target_order(case):
+        depth = {t: 0}
+        todo = [t]
+        while todo:
+            i = todo.pop(0)
+            for l in case["defs"][i]["lines"]:
+                for j in l.get("deps") or []:
+                    if j < len(case["defs"]) and j not in depth:
+                        depth[j] = depth[i] + 1
+                        todo.append(j)
+        if f in depth:
+            return depth[f]
+    return None
+
+
 def inject_fault(rng, case: dict, avoid: typing.Optional[set] = None) -> typing.Optional[str]:
     """Turn a valid namespace into one with a fault; returns the category or None if the pick did not apply.
     `avoid`: definitions that already hold a fault (a second fault goes elsewhere and is recorded there)."""
@@ -937,7 +995,11 @@ def inject_fault(rng, case: dict, avoid: typing.Optional[set] = None) -> typing.
     cand = [i for i in cand if not avoid or i not in avoid]
     if not cand:
         return None
-    f = rng.choice(cand)
+    # definitions that are first reached through a reference (at depth 1..3 below the target read first) get their fair share
+    deep = [i for i in cand if (reach_depth(case, i) or 0) >= 1]
+    deepest = [i for i in deep if reach_depth(case, i) == max(reach_depth(case, j) or 0 for j in deep)]
+    r = rng.random()
+    f = rng.choice(deepest) if deep and r < 0.2 else rng.choice(deep) if deep and r < 0.4 else rng.choice(cand)
     if avoid is not None:
         avoid.add(f)
     d = defs[f]
@@ -947,7 +1009,8 @@ def inject_fault(rng, case: dict, avoid: typing.Optional[set] = None) -> typing.
     anywhere = rng.randint(0, len(lines))
     kind = rng.choice(["syntax", "pre", "mid", "mid-dep", "undef", "directive", "dup-mode", "union-misplaced", "deprecated-misplaced",
                        "attr-after-extent", "dup-marker", "commit", "commit", "commit", "commit-composite-const", "union-offset", "dup-name", "union-arity",
-                       "pad-in-union", "missing-mode", "extent-small", "extent-odd", "bad-aggregation", "deprecated-dep"])
+                       "pad-in-union", "missing-mode", "extent-small", "extent-odd", "bad-aggregation", "deprecated-dep",
+                       "port-unregulated", "port-unregulated", "port-range", "type-name", "name-length"])
     is_union = find_dir(lines, lo, hi, "union") is not None
     if kind == "syntax":
         lines.insert(anywhere, mk_line(copy.deepcopy(rng.choice(SYNTAX_FAULTS)), None, fault="syn", bad=["syntax", "stmt"]))
@@ -1089,6 +1152,35 @@ def inject_fault(rng, case: dict, avoid: typing.Optional[set] = None) -> typing.
         a, b = attr_positions(lines, lo, hi)
         lines.insert(rng.randint(a, b), mk_line(toks, ["attr", "field", "zq", norm, ""], bad=["bad-aggregation", "final"]))
         d["final_fault"] = True
+    elif kind in ("port-unregulated", "port-range"):
+        # faults of the definition's identity (its file name), detected when the finished composite is checked: no line at all
+        if d.get("dfault") or d.get("kind") not in REGULATED:
+            return None
+        lo, hi = REGULATED[d["kind"]]
+        top = PORT_MAX[d["kind"]]
+        if kind == "port-unregulated":
+            d["port"] = rng.choice([0, 1, 7, lo - 1, hi + 1, top, rng.randint(0, lo - 1), rng.randint(hi + 1, top)])
+            d["dfault"] = "unregulated-fixed-port-id"
+        else:
+            d["port"] = rng.choice([top + 1, top + 2, 65535, 65536, rng.randint(top + 1, 100000)])
+            d["dfault"] = "fixed-port-id-out-of-range"
+        d["final_fault"] = True
+    elif kind in ("type-name", "name-length"):
+        if d.get("dfault"):
+            return None
+        if kind == "type-name":
+            new_dir, new_name = d.get("dir") or "", rng.choice(["Bool", "Float32", "Uint8", "COM1", "_Zq_", "Void", "Truncated", "Q1_2", "Lpt3", "Self"])
+            if any(x is not d and x["name"].lower() == new_name.lower() for x in defs):
+                return None
+            d["dfault"] = "reserved-type-name"
+        else:
+            suffix = len(".Response") if d.get("kind") == "service" else 0
+            total = MAX_NAME - suffix + rng.choice([1, 1, 2, 40])  # length of the full name `ns.<dir>.<name>`: one too long and more
+            new_dir = "d" + "i" * rng.choice([99, 150, 200])
+            new_name = d["name"] + "x" * (total - len("ns.") - len(new_dir) - 1 - len(d["name"]))
+            d["dfault"] = "name-too-long"
+        rename_def(case, f, new_dir, new_name)
+        d["final_fault"] = True
     elif kind == "deprecated-dep":
         js = sorted({j for l in lines for j in (l.get("deps") or [])})
         if d.get("deprecated") or not js:
@@ -1108,6 +1200,33 @@ def inject_fault(rng, case: dict, avoid: typing.Optional[set] = None) -> typing.
             if hit:
                 rd["final_fault"] = True
     return kind
+
+
+def droppable(d: dict, i: int) -> bool:
+    """May statement line i of definition d be deleted while shrinking?  Only if the rest stays exactly as valid as it was:
+    serialization mode / @union / @deprecated / marker statements stay, a constant that is referred to stays, a union keeps
+    two variants, nothing changes next to an `_offset_` evaluation or below an injected @extent."""
+    lines = d["lines"]
+    l = lines[i]
+    st = l.get("s")
+    if st is None or l.get("bad") or l.get("offs"):
+        return False
+    if st[0] == "dir":
+        return st[1] in ("print", "assert")
+    if st[0] != "attr":
+        return False
+    lo, hi = next((a, b) for a, b in schema_ranges(lines) if a <= i < b or (a == b == i))
+    rng_lines = lines[lo:hi]
+    if any(m.get("offs") for m in rng_lines):
+        return False
+    if any(m.get("bad") and m["bad"][0] in ("extent-small", "extent-odd") for m in rng_lines):
+        return False
+    if st[1] == "const":
+        return not any(st[2] in (m.get("refs") or []) for m in lines[i + 1:])
+    if find_dir(lines, lo, hi, "union") is not None:
+        nf = sum(1 for m in rng_lines if m.get("s") and m["s"][0] == "attr" and m["s"][1] == "field" and not m.get("bad"))
+        return st[1] == "field" and nf > 2
+    return True
 
 
 # ------------------------------------------------------------------------------------------------- the suite
@@ -1242,11 +1361,19 @@ class TextSuite(common.Suite):
             if c.get("alt"):
                 c["alt"]["inserts"] = [x for x in c["alt"]["inserts"] if x[0] < n - 1]
             yield c
-        # drop lines, statement-less ones first
+        # a regulated fixed port-ID that is no fault can go
+        for di, d in enumerate(case["defs"]):
+            if d.get("port") is not None and "port" not in str(d.get("dfault") or ""):
+                c = copy.deepcopy(case)
+                c["defs"][di]["port"] = None
+                yield c
+        # drop lines, statement-less ones first; only statements whose removal cannot create a fault of its own
         for stmtless in (True, False):
             for di, d in enumerate(case["defs"]):
                 for i, l in enumerate(d["lines"]):
                     if (l.get("s") is None and not l.get("toks")) != stmtless or l.get("bad"):
+                        continue
+                    if not stmtless and not droppable(d, i):
                         continue
                     c = copy.deepcopy(case)
                     del c["defs"][di]["lines"][i]
@@ -1269,6 +1396,16 @@ class TextSuite(common.Suite):
         yield "route:" + str(case["deco"].get("route"))
         for k in case.get("faults") or []:
             yield "fault:" + k
+        for d in case["defs"]:
+            if d.get("port") is not None:
+                yield "fixed-port:" + ("faulty" if str(d.get("dfault") or "").find("port") >= 0 else "regulated")
+        for f, _ln, cls, catg in faults_of(case):
+            if cls == "final":
+                dep = reach_depth(case, f)
+                if dep is not None:
+                    yield "final-fault-depth:%d" % dep
+                    if _ln is None:
+                        yield "identity-fault-depth:%d:%s" % (dep, catg)
         if impl.get("res") == "invalid":
             yield "error:" + str(impl.get("soft_cls"))
             fs = faults_of(case)
@@ -1332,5 +1469,32 @@ CORPUS = [
 _ML = mk_line(T("@print", "r", "'a\nb'"), ["dir", "print", ["o"], "'a\\nb'"])
 _ML["nl"] = 1
 CORPUS.append(_txt("A", [_ML, mk_line(T("@assert", "r", "false"), ["dir", "assert", ["b", False], ""], bad=["assert-false", "stmt"]), _SEALED()], final_nl=True))
+
+
+
+def _dep(name, lines, **kw) -> dict:
+    d = {"name": name, "dir": "", "final_fault": False, "dfault": None, "kind": "message", "deprecated": False, "lines": lines}
+    d.update(kw)
+    return d
+
+
+def _ref(i, full, name="r") -> dict:
+    return mk_line(T(full + ".1.0", "r", name), ["attr", "field", name, full + ".1.0", ""], deps=[i])
+
+
+# faults that are detected after the last line has been processed (the finished composite is checked), in a definition that is
+# reached through a reference before it is read as a target itself: depth 1 and 2, read_namespace and read_files
+CORPUS += [
+    _txt("A", [mk_line(c=" top"), mk_line(), _ref(1, "ns.B"), _SEALED()], final_nl=True,
+         extra_defs=[_dep("B", [_fld("x"), _SEALED()], port=7, final_fault=True, dfault="unregulated-fixed-port-id")]),
+    _txt("A", [_ref(1, "ns.B"), _SEALED()], mode="files",
+         extra_defs=[_dep("B", [mk_line(), _ref(2, "ns.C"), _SEALED()]),
+                     _dep("C", [_SEALED(), mk_line(T("---"), ["marker"]), _SEALED()], kind="service", port=511, final_fault=True, dfault="unregulated-fixed-port-id")]),
+    _txt("A", [_ref(1, "ns.B"), _SEALED()], final_nl=True,
+         extra_defs=[_dep("B", [_fld("x"), _SEALED()], port=8192, final_fault=True, dfault="fixed-port-id-out-of-range")]),
+    _txt("A", [mk_line(), _ref(1, "ns.Bool"), _SEALED()], final_nl=True,
+         extra_defs=[_dep("Bool", [_fld("x"), _SEALED()], final_fault=True, dfault="reserved-type-name")]),
+    _txt("A", [_ref(1, "ns.B"), _SEALED()], final_nl=True, extra_defs=[_dep("B", [_fld("x"), _SEALED()], port=6144)]),
+]
 
 SUITE = TextSuite()
